@@ -468,6 +468,100 @@ def relational(rep, rng, tier):
     return viol
 
 
+def options_correspondence(rep, rng, tier):
+    import qutip
+    methods = ["adams", "bdf", "lsoda", "dop853", "vern7", "vern9", "diag", "krylov"]
+    avail = qutip.SESolver.avail_integrators()
+    methods = [m for m in methods if m in avail]
+    S = {k: v for k, v in qutip.SESolver.solver_options.items() if k != "method"}
+    I = {m: dict(avail[m].integrator_options) for m in methods}
+
+    def variants(v):
+        if isinstance(v, bool):
+            return [v, not v, None]
+        if isinstance(v, (int, float)) and not isinstance(v, bool):
+            return [v, v * 0.5 if isinstance(v, float) else v + 3, (v + 1) * 2, None]
+        return [v, None]
+    lines, reals = [], []
+    for _ in range(60 if tier == "quick" else 600):
+        m0 = str(rng.choice(methods))
+        sol = qutip.SESolver(qutip.num(20), options={"method": m0})
+        ops, outs = [], []
+        cur = m0
+        valid = True
+        for _k in range(int(rng.integers(1, 8))):
+            if not valid:
+                break
+            r = rng.random()
+            if r < 0.55:
+                newm = str(rng.choice(methods)) if rng.random() < 0.5 else None
+                target = newm or cur
+                d = {}
+                pool = list(S) + list(I[target]) + (list(I[cur]) if rng.random() < 0.3 else []) + (["no_such_option"] if rng.random() < 0.05 else [])
+                for key in rng.choice(pool, size=int(rng.integers(0, 5))):
+                    key = str(key)
+                    dv = S.get(key, I[target].get(key, I[cur].get(key, 1)))
+                    cand = variants(dv)
+                    # often the value the option has right now (the case in which "unchanged" items are dropped)
+                    d[key] = sol.options[key] if (key in sol.options and rng.random() < 0.4) else cand[int(rng.integers(0, len(cand)))]
+                if newm:
+                    d["method"] = newm
+                ops.append(["set", {k_: (None if v_ is None else repr(v_)) if k_ != "method" else v_ for k_, v_ in d.items()}])
+                try:
+                    sol.options = dict(d)
+                except KeyError:
+                    outs.append("KeyError")
+                    continue
+                except Exception:          # an integrator refusing a value (range checks): outside the model, history dropped
+                    valid = False
+                    continue
+            elif r < 0.85:
+                pool = list(S) + list(I[cur]) + (["no_such_option"] if rng.random() < 0.1 else []) + ([str(x) for x in I[str(rng.choice(methods))]] if rng.random() < 0.2 else [])
+                key = str(rng.choice(pool))
+                dv = S.get(key, I[cur].get(key, 1))
+                cand = variants(dv)
+                val = cand[int(rng.integers(0, len(cand)))]
+                ops.append(["item", key, None if val is None else repr(val)])
+                try:
+                    sol.options[key] = val
+                except KeyError:
+                    outs.append("KeyError")
+                    continue
+                except Exception:
+                    valid = False
+                    continue
+            else:
+                newm = str(rng.choice(methods))
+                ops.append(["method", newm])
+                try:
+                    sol.options["method"] = newm
+                except Exception:
+                    valid = False
+                    continue
+            cur = sol.options["method"]
+            outs.append({"method": cur, "vals": sorted([k_, repr(v_)] for k_, v_ in sol.options.items() if k_ != "method")})
+        if not valid:
+            rep.count("options-history-dropped")
+            continue
+        lines.append("C11.options " + json.dumps({"S": {k_: repr(v_) for k_, v_ in S.items()}, "I": {m: {k_: repr(v_) for k_, v_ in I[m].items()} for m in methods},
+                                                   "method": m0, "ops": ops}))
+        reals.append((outs, ops, m0))
+        rep.count("options-history")
+    model = core.run_driver(lines)
+    nd, first = 0, None
+    for (outs, ops, m0), m in zip(reals, model):
+        rep.evaluations += 1
+        got = []
+        for x in (m if isinstance(m, list) else []):
+            got.append(x if x == "KeyError" else {"method": x["method"], "vals": sorted(x["vals"])})
+        if got != outs:
+            nd += 1
+            if first is None:
+                k = next((i for i, (a, b) in enumerate(zip(got, outs)) if a != b), None)
+                first = {"method0": m0, "ops": ops, "first_difference_at": k, "model": got[k] if k is not None and k < len(got) else m, "impl": outs[k] if k is not None else outs}
+    return nd, first
+
+
 def run(tier, seed, replay):
     rep = core.Report(PID, tier, seed)
     rep.rule = ("propagator: random query sequences (t, t_start) over integer times in [-T, T], memo sizes 0..7, "
@@ -520,6 +614,14 @@ def run(tier, seed, replay):
     rep.notes["correspondence_disagreements"] = ndis
     if ndis:
         rep.broken.append({"kind": "correspondence", "which": "C11.prop", "count": ndis, "first": first})
+    # ---- the options object of a solver: histories of `solver.options = {...}`, `solver.options[key] = value` and method
+    #      changes on a real SESolver against the model (key sets and defaults are read from the classes of /repo)
+    if not replay:
+        nd2, first2 = options_correspondence(rep, rng, tier)
+        rep.notes["options_correspondence_disagreements"] = nd2
+        if nd2:
+            ndis += nd2
+            rep.broken.append({"kind": "correspondence", "which": "C11.options", "count": nd2, "first": first2})
     if not replay:
         for sig, what, detail in relational(rep, rng, tier):
             rep.violation(core.Violation("C11:" + sig, what, detail))
